@@ -26,6 +26,7 @@ def opts(tier):
     o.huge_classes = ['k64', 'm1', 'm1', 'm16']
     o.long_run_p = 0.006
     o.short_last_p = 0.05
+    o.declared_huge_p = 0.01
     o.equal_shapes_p = 0.15
     return gen.deepen(o, tier)
 
